@@ -1,4 +1,374 @@
 import PgFdr.Proofs.C06
+import PgFdr.Proofs.C01
+
+/-!
+# C06 — every reported row is consistent with its group's evidence peptides
+
+Property text (properties.jsonl): "For every reported group the listed proteins are the members with
+at least one evidence peptide at or below the peptide-level PEP cutoff (all members when keep-all is
+set), each paired with its number of distinct such peptides - a peptide counts once per protein even
+if that protein is listed for it repeatedly; majority proteins are those with at least half the
+maximal count, the best peptide is the evidence peptide with the lowest PEP, and the protein number
+and the decoy and contaminant flags match the listed proteins. A group none of whose proteins has
+such a peptide is omitted unless keep-all is set, rows are in non-increasing score order, and no
+protein occurs in two rows."
+
+Only property theorems live here.  The executable model is `PgFdr.C06.fromProteinGroups` /
+`fromProteinGroup` (`Model/C06.lean`), tied to `ProteinGroupResults.from_protein_groups` /
+`ProteinGroupResult.from_protein_group` by the correspondence of `harness/props/C06.py`.
+
+Reading guide.  `report_alignment` says where every row comes from: row `k` is
+`fromProteinGroup` of the `idx[k]`-th position of `zip(groups, infos, scores, qvals)`, `idx` strictly
+increasing.  The `row_*` theorems characterise every such `fromProteinGroup … = ok (some row)`.
+`distinctCount cutoff info p` (Model/C06.lean, specification side) is the number of distinct peptides
+among the evidence entries at or below the cutoff whose protein list *mentions* `p` (membership — a
+repeated listing cannot count twice).  `hc : Consistent info` says that evidence entries carrying the
+same peptide mention the same proteins; it follows from `evidence_peptides_nodup` (inside the
+pipeline a group's evidence never holds a peptide twice — it is built from a dict):
+`consistent_of_nodup`.  The code only looks at a peptide's first occurrence in
+`(PEP, peptide, proteins)` order, so without it the count is not a function of the set of
+(peptide, protein) incidences.  `cutoff = none` is `float("inf")`.
+
+"no protein occurs in two rows" needs the partition property of the grouping stage (C03/C04);
+here it is proved relative to that: `rows_disjoint_partial`.
+-/
 namespace PgFdr.C06
-theorem placeholder_tmp : True := trivial
+
+/-- "Reported rows carry exactly the score and q-value computed on that ranking, in the same
+    relative order, even when other ranked groups are withheld" (C01) / where each row comes from:
+    a strictly increasing list `idx` of positions of the four-way zip, one per row, such that row `k`
+    is built by `fromProteinGroup` from the group, evidence, score and q-value at position `idx[k]`
+    (which is not a placeholder) and carries exactly that score and q-value -/
+theorem report_alignment (groups : List (List String)) (infos : List (List Evidence))
+    (scores qvals : List Rat) (cutoff : Option Rat) (keepAll : Bool) (rows : List RowData)
+    (h : fromProteinGroups groups infos scores qvals cutoff keepAll = .ok rows) :
+    ∃ idx : List Nat, idx.Pairwise (· < ·) ∧ idx.length = rows.length ∧
+      ∀ (k i : Nat), idx[k]? = some i →
+        ∃ row g info s q, rows[k]? = some row ∧
+          groups[i]? = some g ∧ infos[i]? = some info ∧ scores[i]? = some s ∧ qvals[i]? = some q ∧
+          row.score = s ∧ row.qValue = q ∧ isObsolete g = false ∧
+          fromProteinGroup g info q s cutoff keepAll = .ok (some row) :=
+  report_alignment_aux groups infos scores qvals cutoff keepAll rows h
+
+/-- `evidence_peptides_nodup`: a group's evidence that holds every peptide once is consistent -/
+theorem consistent_of_nodup (info : List Evidence) (hnd : (info.map (·.peptide)).Nodup) :
+    Consistent info :=
+  consistent_of_nodup_aux info hnd
+
+/-- "the listed proteins are the members with at least one evidence peptide at or below the
+    peptide-level PEP cutoff (all members when keep-all is set)", in the group's order; a reported
+    row lists at least one protein -/
+theorem row_listed_proteins (g : List String) (info : List Evidence) (q s : Rat)
+    (cutoff : Option Rat) (keepAll : Bool) (row : RowData)
+    (h : fromProteinGroup g info q s cutoff keepAll = .ok (some row))
+    (hc : Consistent info) :
+    row.proteins = g.filter (fun p => keepAll || decide (0 < distinctCount cutoff info p)) ∧
+    row.proteins ≠ [] := by
+  obtain ⟨h1, -, -, -, -, -, -, -, -, h10, -⟩ := fromProteinGroup_some g info q s cutoff keepAll row h
+  refine ⟨?_, h10⟩
+  rw [h1]
+  apply List.filter_congr
+  intro p _
+  rw [cnt_eq_of_consistent cutoff info hc p, Bool.or_comm]
+
+/-- "each paired with its number of distinct such peptides - a peptide counts once per protein even
+    if that protein is listed for it repeatedly": the counts are positionally the `distinctCount`s of
+    the listed proteins, and `distinctCount` only asks whether the protein is *mentioned* in a
+    peptide's protein list -/
+theorem row_counts_distinct (g : List String) (info : List Evidence) (q s : Rat)
+    (cutoff : Option Rat) (keepAll : Bool) (row : RowData)
+    (h : fromProteinGroup g info q s cutoff keepAll = .ok (some row))
+    (hc : Consistent info) :
+    row.counts = row.proteins.map (distinctCount cutoff info) ∧
+    ∀ p, distinctCount cutoff info p =
+      ((info.filter (fun e => within cutoff e && decide (p ∈ e.proteins))).map (·.peptide)).eraseDups.length := by
+  obtain ⟨-, h2, -⟩ := fromProteinGroup_some g info q s cutoff keepAll row h
+  refine ⟨?_, fun p => rfl⟩
+  rw [h2]
+  apply List.map_congr_left
+  intro p _
+  exact cnt_eq_of_consistent cutoff info hc p
+
+/-- "majority proteins are those with at least half the maximal count": `M` is the maximum of the
+    row's counts (an upper bound that is attained) and the majority proteins are the listed proteins
+    `p` with `M ≤ 2 · count p`, in order -/
+theorem row_majority (g : List String) (info : List Evidence) (q s : Rat)
+    (cutoff : Option Rat) (keepAll : Bool) (row : RowData)
+    (h : fromProteinGroup g info q s cutoff keepAll = .ok (some row))
+    (hc : Consistent info) :
+    ∃ M, M ∈ row.counts ∧ (∀ c ∈ row.counts, c ≤ M) ∧
+      row.majority = row.proteins.filter (fun p => decide (M ≤ 2 * distinctCount cutoff info p)) := by
+  obtain ⟨-, h2, h3, -, -, -, -, -, -, h10, -⟩ := fromProteinGroup_some g info q s cutoff keepAll row h
+  have hne : row.counts ≠ [] := by
+    rw [h2]; intro hnil; exact h10 (List.map_eq_nil_iff.mp hnil)
+  obtain ⟨hub, hmem⟩ := maxCount_spec row.counts hne
+  refine ⟨maxCount row.counts, hmem, hub, ?_⟩
+  rw [h3]
+  apply List.filter_congr
+  intro p _
+  rw [cnt_eq_of_consistent cutoff info hc p]
+
+/-- "the best peptide is the evidence peptide with the lowest PEP" (any evidence peptide, not only
+    those within the cutoff; among equal PEPs the first peptide in code-point order) -/
+theorem row_best_peptide (g : List String) (info : List Evidence) (q s : Rat)
+    (cutoff : Option Rat) (keepAll : Bool) (row : RowData)
+    (h : fromProteinGroup g info q s cutoff keepAll = .ok (some row)) :
+    ∃ e ∈ info, e.peptide = row.bestPeptide ∧
+      ∀ e' ∈ info, e.pep ≤ e'.pep ∧ (e'.pep = e.pep → e.peptide ≤ e'.peptide) := by
+  obtain ⟨-, -, -, h4, -⟩ := fromProteinGroup_some g info q s cutoff keepAll row h
+  unfold bestPeptide at h4
+  cases hb : bestPair info with
+  | none => simp [hb] at h4
+  | some vs =>
+    obtain ⟨v, s'⟩ := vs
+    simp only [hb, Option.map_some, Option.some.injEq] at h4
+    obtain ⟨⟨e, he, hv, hs⟩, hmin⟩ := bestPair_spec info v s' hb
+    subst h4
+    refine ⟨e, he, hs, ?_⟩
+    intro e' he'
+    rw [hv, hs]
+    exact hmin e' he'
+
+/-- "the protein number and the decoy and contaminant flags match the listed proteins", and the row
+    carries the score and q-value it was given -/
+theorem row_number_and_flags (g : List String) (info : List Evidence) (q s : Rat)
+    (cutoff : Option Rat) (keepAll : Bool) (row : RowData)
+    (h : fromProteinGroup g info q s cutoff keepAll = .ok (some row)) :
+    row.numberOfProteins = row.proteins.length ∧
+    row.reverse = isDecoy row.proteins ∧ row.contaminant = isContaminant row.proteins ∧
+    row.score = s ∧ row.qValue = q := by
+  obtain ⟨-, -, -, -, h5, h6, h7, h8, h9, -⟩ := fromProteinGroup_some g info q s cutoff keepAll row h
+  exact ⟨h5, h8, h9, h7, h6⟩
+
+/-- the flags in terms of the identifiers: "Reverse" is set iff one decoy marker (`REV__`, or `rev_`)
+    occurs in every listed protein, "Potential contaminant" iff `CON__` occurs in every listed protein
+    (Python `in`: anywhere in the identifier) -/
+theorem row_flags_spec (g : List String) (info : List Evidence) (q s : Rat)
+    (cutoff : Option Rat) (keepAll : Bool) (row : RowData)
+    (h : fromProteinGroup g info q s cutoff keepAll = .ok (some row)) :
+    (row.reverse = true ↔
+      (∀ p ∈ row.proteins, ∃ a b, p.toList = a ++ "REV__".toList ++ b) ∨
+      (∀ p ∈ row.proteins, ∃ a b, p.toList = a ++ "rev_".toList ++ b)) ∧
+    (row.contaminant = true ↔ ∀ p ∈ row.proteins, ∃ a b, p.toList = a ++ "CON__".toList ++ b) := by
+  obtain ⟨-, -, -, -, -, -, -, h8, h9, -⟩ := fromProteinGroup_some g info q s cutoff keepAll row h
+  constructor
+  · rw [h8]; exact C01.decoy_only_if_all_aux row.proteins
+  · rw [h9]
+    unfold isContaminant
+    rw [C01.allContain_iff]
+    simp only [strContains, C01.containsSub_iff]
+
+/-- all of the above for every row of a report: each row comes from one position of the zip (in
+    order, `report_alignment`) and every field is the stated function of that position's group and
+    evidence -/
+theorem reported_rows_consistent (groups : List (List String)) (infos : List (List Evidence))
+    (scores qvals : List Rat) (cutoff : Option Rat) (keepAll : Bool) (rows : List RowData)
+    (h : fromProteinGroups groups infos scores qvals cutoff keepAll = .ok rows)
+    (hc : ∀ info ∈ infos, Consistent info) :
+    ∀ row ∈ rows, ∃ (i : Nat) (g : List String) (info : List Evidence),
+      groups[i]? = some g ∧ infos[i]? = some info ∧ isObsolete g = false ∧
+      scores[i]? = some row.score ∧ qvals[i]? = some row.qValue ∧
+      row.proteins = g.filter (fun p => keepAll || decide (0 < distinctCount cutoff info p)) ∧
+      row.proteins ≠ [] ∧
+      row.counts = row.proteins.map (distinctCount cutoff info) ∧
+      (∃ M, M ∈ row.counts ∧ (∀ c ∈ row.counts, c ≤ M) ∧
+        row.majority = row.proteins.filter (fun p => decide (M ≤ 2 * distinctCount cutoff info p))) ∧
+      (∃ e ∈ info, e.peptide = row.bestPeptide ∧
+        ∀ e' ∈ info, e.pep ≤ e'.pep ∧ (e'.pep = e.pep → e.peptide ≤ e'.peptide)) ∧
+      row.numberOfProteins = row.proteins.length ∧
+      row.reverse = isDecoy row.proteins ∧ row.contaminant = isContaminant row.proteins := by
+  intro row hrow
+  obtain ⟨idx, -, h2, h3⟩ := report_alignment groups infos scores qvals cutoff keepAll rows h
+  obtain ⟨k, hk⟩ := List.getElem?_of_mem hrow
+  have hkl : k < idx.length := by rw [h2]; exact (List.getElem?_eq_some_iff.mp hk).1
+  obtain ⟨row', g, info, s, q, hr, hg, hi, hs, hq, hrs, hrq, ho, hf⟩ := h3 k idx[k] (List.getElem?_eq_getElem hkl)
+  rw [hk] at hr
+  obtain rfl := Option.some.inj hr
+  have hci : Consistent info := hc info (List.mem_of_getElem? hi)
+  obtain ⟨l1, l2⟩ := row_listed_proteins g info q s cutoff keepAll row hf hci
+  obtain ⟨c1, -⟩ := row_counts_distinct g info q s cutoff keepAll row hf hci
+  obtain ⟨n1, n2, n3, -, -⟩ := row_number_and_flags g info q s cutoff keepAll row hf
+  exact ⟨idx[k], g, info, hg, hi, ho, hrs ▸ hs, hrq ▸ hq, l1, l2, c1,
+    row_majority g info q s cutoff keepAll row hf hci,
+    row_best_peptide g info q s cutoff keepAll row hf, n1, n2, n3⟩
+
+/-- "A group none of whose proteins has such a peptide is omitted unless keep-all is set": a position
+    of the zip is left out of the report exactly if its group is a placeholder (`OBSOLETE__` in every
+    member, or no member) or keep-all is off and no member has a peptide within the cutoff -/
+theorem row_omitted_iff (groups : List (List String)) (infos : List (List Evidence))
+    (scores qvals : List Rat) (cutoff : Option Rat) (keepAll : Bool) (rows : List RowData)
+    (h : fromProteinGroups groups infos scores qvals cutoff keepAll = .ok rows)
+    (hc : ∀ info ∈ infos, Consistent info) :
+    ∃ idx : List Nat, idx.Pairwise (· < ·) ∧ idx.length = rows.length ∧
+      (∀ i ∈ idx, i < (slots groups infos scores qvals).length) ∧
+      ∀ (i : Nat) g info, i < (slots groups infos scores qvals).length →
+        groups[i]? = some g → infos[i]? = some info →
+        (i ∉ idx ↔ isObsolete g = true ∨
+          (keepAll = false ∧ ∀ p ∈ g, distinctCount cutoff info p = 0)) := by
+  obtain ⟨idx, h1, h2, h3, h4⟩ := rowsOfSlots_aligned cutoff keepAll _ rows h
+  refine ⟨idx, h1, h2, ?_, ?_⟩
+  · intro i hi
+    obtain ⟨k, hk⟩ := List.getElem?_of_mem hi
+    obtain ⟨row, -, g, info, s, q, hsl, -⟩ := h3 k i hk
+    exact (List.getElem?_eq_some_iff.mp hsl).1
+  · intro i g info hi hg hinfo
+    have hci : Consistent info := hc info (List.mem_of_getElem? hinfo)
+    constructor
+    · intro hni
+      obtain ⟨g', info', s, q, hsl, hw⟩ := h4 i hi hni
+      obtain ⟨e1, e2, -, -⟩ := (slots_getElem? groups infos scores qvals i g' info' s q).mp hsl
+      rw [hg] at e1; rw [hinfo] at e2
+      obtain rfl := Option.some.inj e1
+      obtain rfl := Option.some.inj e2
+      rcases hw with hw | hw
+      · exact Or.inl hw
+      · right
+        obtain ⟨hk, hz⟩ := (fromProteinGroup_none_iff g info q s cutoff keepAll).mp hw
+        refine ⟨hk, ?_⟩
+        intro p hp
+        rw [← cnt_eq_of_consistent cutoff info hci p]; exact hz p hp
+    · intro hw hmem
+      obtain ⟨k, hk⟩ := List.getElem?_of_mem hmem
+      obtain ⟨row, -, g', info', s, q, hsl, ho, hf⟩ := h3 k i hk
+      obtain ⟨e1, e2, -, -⟩ := (slots_getElem? groups infos scores qvals i g' info' s q).mp hsl
+      rw [hg] at e1; rw [hinfo] at e2
+      obtain rfl := Option.some.inj e1
+      obtain rfl := Option.some.inj e2
+      rcases hw with hw | ⟨hk', hz⟩
+      · rw [hw] at ho; exact Bool.noConfusion ho
+      · have : fromProteinGroup g info q s cutoff keepAll = .ok none := by
+          rw [fromProteinGroup_none_iff]
+          refine ⟨hk', ?_⟩
+          intro p hp
+          rw [cnt_eq_of_consistent cutoff info hci p]; exact hz p hp
+        rw [this] at hf
+        simp at hf
+
+/-- "rows are in non-increasing score order" (given the ranking's scores are non-increasing, which
+    is what the competition stage delivers) -/
+theorem rows_sorted_by_score (groups : List (List String)) (infos : List (List Evidence))
+    (scores qvals : List Rat) (cutoff : Option Rat) (keepAll : Bool) (rows : List RowData)
+    (h : fromProteinGroups groups infos scores qvals cutoff keepAll = .ok rows)
+    (hs : scores.Pairwise (· ≥ ·)) : (rows.map (·.score)).Pairwise (· ≥ ·) := by
+  obtain ⟨idx, h1, h2, h3⟩ := report_alignment groups infos scores qvals cutoff keepAll rows h
+  rw [List.pairwise_map, List.pairwise_iff_getElem]
+  intro a b ha hb hab
+  have hia : a < idx.length := by omega
+  have hib : b < idx.length := by omega
+  obtain ⟨ra, _, _, sa, _, hra, _, _, hsa, _, hsca, _⟩ := h3 a idx[a] (List.getElem?_eq_getElem hia)
+  obtain ⟨rb, _, _, sb, _, hrb, _, _, hsb, _, hscb, _⟩ := h3 b idx[b] (List.getElem?_eq_getElem hib)
+  rw [List.getElem?_eq_getElem ha] at hra
+  rw [List.getElem?_eq_getElem hb] at hrb
+  obtain rfl := Option.some.inj hra
+  obtain rfl := Option.some.inj hrb
+  rw [hsca, hscb]
+  have hlt : idx[a] < idx[b] := List.pairwise_iff_getElem.mp h1 a b hia hib hab
+  have hla : idx[a] < scores.length := (List.getElem?_eq_some_iff.mp hsa).1
+  have hlb : idx[b] < scores.length := (List.getElem?_eq_some_iff.mp hsb).1
+  have := List.pairwise_iff_getElem.mp hs idx[a] idx[b] hla hlb hlt
+  rw [List.getElem?_eq_getElem hla] at hsa
+  rw [List.getElem?_eq_getElem hlb] at hsb
+  obtain rfl := Option.some.inj hsa
+  obtain rfl := Option.some.inj hsb
+  exact this
+
+/-- "no protein occurs in two rows".
+    Full statement (not provable from this stage alone): for every peptide list and shipped method,
+    the rows of `get_protein_group_results` are pairwise disjoint.  Missing case: that the groups
+    handed to `from_protein_groups` are pairwise disjoint, which is the partition property of the
+    grouping / rescue stage (C03, C04) carried through the competition (C02: survivors are input
+    groups).  Proved part: if no protein occurs in two of the input groups, none occurs in two rows
+    (each row lists a sub-list of its own group, distinct rows come from distinct positions) -/
+theorem rows_disjoint_partial (groups : List (List String)) (infos : List (List Evidence))
+    (scores qvals : List Rat) (cutoff : Option Rat) (keepAll : Bool) (rows : List RowData)
+    (h : fromProteinGroups groups infos scores qvals cutoff keepAll = .ok rows)
+    (hd : groups.Pairwise (fun a b => ∀ p, p ∈ a → p ∉ b)) :
+    rows.Pairwise (fun a b => ∀ p, p ∈ a.proteins → p ∉ b.proteins) := by
+  obtain ⟨idx, h1, h2, h3⟩ := report_alignment groups infos scores qvals cutoff keepAll rows h
+  rw [List.pairwise_iff_getElem]
+  intro a b ha hb hab
+  have hia : a < idx.length := by omega
+  have hib : b < idx.length := by omega
+  obtain ⟨ra, ga, ia, sa, qa, hra, hga, _, _, _, _, _, _, hfa⟩ := h3 a idx[a] (List.getElem?_eq_getElem hia)
+  obtain ⟨rb, gb, ib, sb, qb, hrb, hgb, _, _, _, _, _, _, hfb⟩ := h3 b idx[b] (List.getElem?_eq_getElem hib)
+  rw [List.getElem?_eq_getElem ha] at hra
+  rw [List.getElem?_eq_getElem hb] at hrb
+  obtain rfl := Option.some.inj hra
+  obtain rfl := Option.some.inj hrb
+  have hlt : idx[a] < idx[b] := List.pairwise_iff_getElem.mp h1 a b hia hib hab
+  have hla : idx[a] < groups.length := (List.getElem?_eq_some_iff.mp hga).1
+  have hlb : idx[b] < groups.length := (List.getElem?_eq_some_iff.mp hgb).1
+  have hdis := List.pairwise_iff_getElem.mp hd idx[a] idx[b] hla hlb hlt
+  rw [List.getElem?_eq_getElem hla] at hga
+  rw [List.getElem?_eq_getElem hlb] at hgb
+  obtain rfl := Option.some.inj hga
+  obtain rfl := Option.some.inj hgb
+  obtain ⟨pa, -⟩ := fromProteinGroup_some _ _ _ _ _ _ _ hfa
+  obtain ⟨pb, -⟩ := fromProteinGroup_some _ _ _ _ _ _ _ hfb
+  intro p hpa hpb
+  rw [pa] at hpa; rw [pb] at hpb
+  exact hdis p (List.mem_filter.mp hpa).1 (List.mem_filter.mp hpb).1
+
+/-- the only way the report fails: keep-all is set and a non-placeholder group has no evidence at
+    all (`sorted([])[0]`); the model rejects exactly this -/
+theorem report_error (groups : List (List String)) (infos : List (List Evidence))
+    (scores qvals : List Rat) (cutoff : Option Rat) (keepAll : Bool) (e : String)
+    (h : fromProteinGroups groups infos scores qvals cutoff keepAll = .error e) :
+    keepAll = true ∧ e = "no_evidence" ∧
+      ∃ (i : Nat) (g : List String), groups[i]? = some g ∧ infos[i]? = some [] ∧ isObsolete g = false := by
+  obtain ⟨g, info, s, q, hm, ho, hf⟩ := rowsOfSlots_error cutoff keepAll _ e h
+  obtain ⟨hk, hcase⟩ := fromProteinGroup_error g info q s cutoff keepAll e hf
+  obtain ⟨i, hi⟩ := List.getElem?_of_mem hm
+  obtain ⟨e1, e2, -, -⟩ := (slots_getElem? groups infos scores qvals i g info s q).mp hi
+  rcases hcase with ⟨-, hg⟩ | ⟨he, hinfo⟩
+  · subst hg; simp [isObsolete, allContain] at ho
+  · exact ⟨hk, he, i, g, e1, hinfo ▸ e2, ho⟩
+
+/-- what the writer (and the correspondence) sees: the list-valued fields joined with ";",
+    the flags as "+" / "" -/
+theorem render_fields (d : RowData) :
+    (render d).proteinIds = joinWith ";" d.proteins ∧
+    (render d).majorityProteinIds = joinWith ";" d.majority ∧
+    (render d).peptideCountsUnique = joinWith ";" (d.counts.map toString) ∧
+    (render d).bestPeptide = d.bestPeptide ∧ (render d).numberOfProteins = d.numberOfProteins ∧
+    (render d).qValue = d.qValue ∧ (render d).score = d.score ∧
+    ((render d).reverse = "+" ↔ d.reverse = true) ∧
+    ((render d).potentialContaminant = "+" ↔ d.contaminant = true) := by
+  refine ⟨rfl, rfl, rfl, rfl, rfl, rfl, rfl, ?_, ?_⟩
+  · cases h : d.reverse <;> simp [render, flag, h]
+  · cases h : d.contaminant <;> simp [render, flag, h]
+
+/-! Non-vacuity: the gene-level example of DESIGN.md §9 item 4 (`G1` listed twice for `PEPA`), a
+placeholder in between and a decoy group; the report has two rows, from positions 0 and 2. -/
+
+private def exGroups : List (List String) := [["G1", "G2", "G3"], ["OBSOLETE__X"], ["REV__Y"]]
+private def exInfos : List (List Evidence) :=
+  [[⟨3/1000, "PEPC", ["G2", "G1"]⟩, ⟨1/1000, "PEPA", ["G1", "G1", "G2"]⟩, ⟨2/1000, "PEPB", ["G2"]⟩,
+    ⟨1/2, "PEPD", ["G3"]⟩],
+   [], [⟨1/100, "PEPE", ["REV__Y"]⟩]]
+
+example : fromProteinGroups exGroups exInfos [3, 2, 1] [1/2, 1/2, 1] (some (1/100)) false =
+    .ok [{ proteins := ["G1", "G2"], majority := ["G1", "G2"], counts := [2, 3], bestPeptide := "PEPA",
+           numberOfProteins := 2, qValue := 1/2, score := 3, reverse := false, contaminant := false },
+         { proteins := ["REV__Y"], majority := ["REV__Y"], counts := [1], bestPeptide := "PEPE",
+           numberOfProteins := 1, qValue := 1, score := 1, reverse := true, contaminant := false }] := by
+  decide +kernel
+
+example : ∀ info ∈ exInfos, (info.map (·.peptide)).Nodup := by decide +kernel
+
+example : ∀ info ∈ exInfos, Consistent info :=
+  fun info h => consistent_of_nodup info ((by decide +kernel : ∀ info ∈ exInfos, (info.map (·.peptide)).Nodup) info h)
+
+example : distinctCount (some (1/100)) (exInfos.getD 0 []) "G1" = 2 := by decide +kernel
+
+/-- the same peptide twice (consistent protein sets, different PEPs, repeated listing): counted once -/
+example : peptideCounts none [⟨1/100, "PEPA", ["G1"]⟩, ⟨1/1000, "PEPA", ["G1", "G1"]⟩] ["G1"] = [1] := by
+  decide +kernel
+
+example : ([3, 2, 1] : List Rat).Pairwise (· ≥ ·) := by decide +kernel
+
+example : exGroups.Pairwise (fun a b => ∀ p, p ∈ a → p ∉ b) := by decide +kernel
+
+example : fromProteinGroups [["G1"]] [[]] [1] [1] none true = .error "no_evidence" := by decide +kernel
+
 end PgFdr.C06
